@@ -40,13 +40,19 @@ func (m *Mutex) ch() chan struct{} {
 	return *m.sem.Load()
 }
 
-func (m *Mutex) Lock() {
+func (m *Mutex) Lock() { m.LockAt("") }
+
+// LockAt is Lock with the original call site (supplied by the rewriter).
+func (m *Mutex) LockAt(site string) {
 	if !vs.InBubble() {
 		m.real.Lock()
 		return
 	}
 	if x := vs.Cur(); x != nil && x.Controlled() {
-		vs.PointLock(vs.CallerSite(2), &m.ls, false)
+		if site == "" {
+			site = vs.CallerSite(3)
+		}
+		vs.PointLock("L:"+site, &m.ls, false)
 	}
 	m.ch() <- struct{}{}
 	m.ls.Held.Store(1)
@@ -82,21 +88,25 @@ func (m *Mutex) Unlock() {
 // the rewriter still maps it so that new code compiles).
 type RWMutex struct{ m Mutex }
 
-func (m *RWMutex) Lock()    { m.m.Lock() }
-func (m *RWMutex) Unlock()  { m.m.Unlock() }
-func (m *RWMutex) RLock()   { m.m.Lock() }
-func (m *RWMutex) RUnlock() { m.m.Unlock() }
+func (m *RWMutex) Lock()               { m.m.LockAt("") }
+func (m *RWMutex) LockAt(site string)  { m.m.LockAt(site) }
+func (m *RWMutex) Unlock()             { m.m.Unlock() }
+func (m *RWMutex) RLock()              { m.m.LockAt("") }
+func (m *RWMutex) RLockAt(site string) { m.m.LockAt(site) }
+func (m *RWMutex) RUnlock()            { m.m.Unlock() }
 
 type Once struct {
 	m    Mutex
 	done atomic.Bool
 }
 
-func (o *Once) Do(f func()) {
+func (o *Once) Do(f func()) { o.DoAt("", f) }
+
+func (o *Once) DoAt(site string, f func()) {
 	if o.done.Load() {
 		return
 	}
-	o.m.Lock()
+	o.m.LockAt(site)
 	defer o.m.Unlock()
 	if !o.done.Load() {
 		defer o.done.Store(true)
@@ -108,8 +118,13 @@ type WaitGroup struct{ real sync.WaitGroup }
 
 func (w *WaitGroup) Add(n int) { w.real.Add(n) }
 func (w *WaitGroup) Done()     { w.real.Done() }
-func (w *WaitGroup) Wait() {
-	vs.Point(vs.CallerSite(2))
+func (w *WaitGroup) Wait()     { w.WaitAt("") }
+
+func (w *WaitGroup) WaitAt(site string) {
+	if site == "" {
+		site = vs.CallerSite(3)
+	}
+	vs.Point("W:" + site)
 	w.real.Wait()
 }
 func (w *WaitGroup) Go(f func()) { w.real.Go(f) }
